@@ -202,8 +202,14 @@ fn fam_int<const N: usize, const M: usize>(ctx: &Ctx) {
                     let (q, r) = ia.checked_div_rem(&nzn);
                     qr(icopt(q), &iw(&r))
                 });
+                // ct ~ vartime twin in the same group (route equivalence, C15)
+                chk!(cs, "Int::checked_div_rem_vartime (same width)", cls, &e, {
+                    let (q, r) = ia.checked_div_rem_vartime(&nzn);
+                    qr(icopt(q), &iw(&r))
+                });
                 cs.group();
                 chk!(cs, "Int::checked_div", cls, &eq, iopt(ia.checked_div(&id_n)));
+                chk!(cs, "Int::checked_div_vartime (same width)", cls, &eq, iopt(ia.checked_div_vartime(&id_n)));
                 chk!(cs, "Int:CheckedDiv", cls, &eq, iopt(CheckedDiv::checked_div(&ia, &id_n)));
                 chk!(cs, "&Int/&NonZero<Int>", cls, &eq, iopt(&ia / &nzn));
                 chk!(cs, "Int/&NonZero<Int>", cls, &eq, iopt(ia / &nzn));
@@ -240,6 +246,7 @@ fn fam_int<const N: usize, const M: usize>(ctx: &Ctx) {
                 cs.group();
                 let er = Out::v(&tc(&tr, N));
                 chk!(cs, "Int::rem", cls, &er, Out::v(&iw(&ia.rem(&nzn))));
+                chk!(cs, "Int::rem_vartime (same width)", cls, &er, Out::v(&iw(&ia.rem_vartime(&nzn))));
                 chk!(cs, "&Int%&NonZero<Int>", cls, &er, Out::v(&iw(&(&ia % &nzn))));
                 chk!(cs, "Int%&NonZero<Int>", cls, &er, Out::v(&iw(&(ia % &nzn))));
                 chk!(cs, "&Int%NonZero<Int>", cls, &er, Out::v(&iw(&(&ia % nzn))));
@@ -267,8 +274,13 @@ fn fam_int<const N: usize, const M: usize>(ctx: &Ctx) {
                     let (q, r) = ia.checked_div_rem_floor(&nzn);
                     qr(icopt(q), &iw(&r))
                 });
+                chk!(cs, "Int::checked_div_rem_floor_vartime (same width)", cls, &e, {
+                    let (q, r) = ia.checked_div_rem_floor_vartime(&nzn);
+                    qr(icopt(q), &iw(&r))
+                });
                 cs.group();
                 chk!(cs, "Int::checked_div_floor", cls, &efq, iopt(ia.checked_div_floor(&id_n)));
+                chk!(cs, "Int::checked_div_floor_vartime (same width)", cls, &efq, iopt(ia.checked_div_floor_vartime(&id_n)));
             }
         }
         // ---------------- unsigned divisor: d's limbs read as a Uint<M>
@@ -323,9 +335,16 @@ fn fam_int<const N: usize, const M: usize>(ctx: &Ctx) {
                     let (q, r) = ia.div_rem_uint(&nzn);
                     cat2(&iw(&q), &iw(&r))
                 });
+                if r_fits {
+                    chk!(cs, "Int::div_rem_uint_vartime (same width)", "any", &e, {
+                        let (q, r) = ia.div_rem_uint_vartime(&nzn);
+                        cat2(&iw(&q), &iw(&r))
+                    });
+                }
                 cs.group();
                 let eq = Out::v(&tc(&tq, N));
                 chk!(cs, "Int::div_uint", "any", &eq, Out::v(&iw(&ia.div_uint(&nzn))));
+                chk!(cs, "Int::div_uint_vartime (same width)", "any", &eq, Out::v(&iw(&ia.div_uint_vartime(&nzn))));
                 chk!(cs, "&Int/&NonZero<Uint>", "any", &eq, Out::v(&iw(&(&ia / &nzn))));
                 chk!(cs, "Int/&NonZero<Uint>", "any", &eq, Out::v(&iw(&(ia / &nzn))));
                 chk!(cs, "&Int/NonZero<Uint>", "any", &eq, Out::v(&iw(&(&ia / nzn))));
@@ -350,6 +369,9 @@ fn fam_int<const N: usize, const M: usize>(ctx: &Ctx) {
                 cs.group();
                 let er = Out::v(&tc(&tr, N));
                 chk!(cs, "Int::rem_uint", "any", &er, Out::v(&iw(&ia.rem_uint(&nzn))));
+                if r_fits {
+                    chk!(cs, "Int::rem_uint_vartime (same width)", "any", &er, Out::v(&iw(&ia.rem_uint_vartime(&nzn))));
+                }
                 chk!(cs, "&Int%&NonZero<Uint>", "any", &er, Out::v(&iw(&(&ia % &nzn))));
                 chk!(cs, "Int%NonZero<Uint>", "any", &er, Out::v(&iw(&(ia % nzn))));
                 chk!(cs, "Int%=NonZero<Uint>", "any", &er, {
@@ -369,10 +391,16 @@ fn fam_int<const N: usize, const M: usize>(ctx: &Ctx) {
                     let (q, r) = ia.div_rem_floor_uint(&nzn);
                     cat2(&iw(&q), &w(&r))
                 });
+                chk!(cs, "Int::div_rem_floor_uint_vartime (same width)", "any", &e, {
+                    let (q, r) = ia.div_rem_floor_uint_vartime(&nzn);
+                    cat2(&iw(&q), &w(&r))
+                });
                 cs.group();
                 chk!(cs, "Int::div_floor_uint", "any", &Out::v(&tc(&fq, N)), Out::v(&iw(&ia.div_floor_uint(&nzn))));
+                chk!(cs, "Int::div_floor_uint_vartime (same width)", "any", &Out::v(&tc(&fq, N)), Out::v(&iw(&ia.div_floor_uint_vartime(&nzn))));
                 cs.group();
                 chk!(cs, "Int::normalized_rem", "any", &Out::v(&from_big(&fr.to_biguint().unwrap(), N)), Out::v(&w(&ia.normalized_rem(&nzn))));
+                chk!(cs, "Int::normalized_rem_vartime (same width)", "any", &Out::v(&from_big(&fr.to_biguint().unwrap(), N)), Out::v(&w(&ia.normalized_rem_vartime(&nzn))));
             }
         }
     });
